@@ -4,7 +4,7 @@ from hypothesis import strategies as st
 from ECAgent.Core import Agent, Model
 from ECAgent.Environments import GridWorld
 from vf.engine import Violation, InvalidCase
-from vf.fixtures import CompA, CompB, CompC, CompD, check, sized_lists
+from vf.fixtures import CompA, CompB, CompC, CompD, check, sized_lists, wone_of
 
 PROPERTY = "C13"
 BUDGET = {"quick": 1600, "thorough": 5000}
@@ -125,7 +125,7 @@ def strategy(tier):
     rem = st.fixed_dictionaries({"op": st.just("remove"), "k": st.integers(0, 7)})
     q = st.fixed_dictionaries({"op": st.just("query"), "tmpl": st.lists(st.sampled_from([0, 0, 1, 1, 2, 3]), max_size=3),
                                "tag": st.sampled_from([None, None, 0, 0, 1, 2, 7, 9]), "omit_tag": st.booleans()})
-    return st.fixed_dictionaries({"seed": st.one_of(st.integers(0, 50), st.integers(-2 ** 70, 2 ** 70)),
+    return st.fixed_dictionaries({"seed": wone_of(st.integers(0, 50), st.integers(-2 ** 70, 2 ** 70)),
                                   "grid": st.sampled_from([False, False, False, True]),
                                   "ops": st.builds(lambda first, rest: first + rest, sized_lists(add, 0, 6),
-                                                   sized_lists(st.one_of(add, add, rem, q, q, q), 3, 22))})
+                                                   sized_lists(wone_of(add, add, rem, q, q, q), 3, 22))})
